@@ -267,3 +267,27 @@ func H_C11_nestedIds(outerMode, innerMode int) {
 		verifAssert(sx == sy, "C11: the same id always gets the same name")
 	}
 }
+
+// H_C11_separatorKeys(n): two forks of a call mapped over a typed map inside a
+// pipeline mapped over a typed map, whose keys contain the text mrp itself
+// puts between the levels of a nested fork name: with arbitrary p, q, x of n
+// bytes each, the forks (p, x+"/fork_"+q) and (p+"/fork_"+x, q).
+//
+//	C11: they are distinct forks, so they get distinct directories and distinct
+//	     journal names ("text that looks like an encoded key").
+func H_C11_separatorKeys(n int) {
+	p, q, x := verifString("p", n), verifString("q", n), verifString("x", n)
+	sep := "/fork_"
+	keys := []string{p, x + sep + q, p + sep + x, q}
+	a := ForkId{c11Part(1, 0, keys), c11Part(1, 1, keys)}
+	b := ForkId{c11Part(1, 2, keys), c11Part(1, 3, keys)}
+	sa, ea := a.ForkIdString()
+	sb, eb := b.ForkIdString()
+	verifCover("separator-like keys named")
+	if ea != nil || eb != nil {
+		// (a key which is not a legal directory name is refused elsewhere)
+		return
+	}
+	verifAssert(sa != sb, "C11: forks whose keys contain the level separator get different directories")
+	verifAssert(encodeJournalName.Replace(sa) != encodeJournalName.Replace(sb), "C11: forks whose keys contain the text of the level separator get different journal names")
+}
